@@ -469,3 +469,143 @@ Definition ematrix_identity : props :=
 Theorem elegant_ematrix_affine_row_refuted :
   exists t, convert Elegant "c" ematrix_identity = Some t /\ leaf_param t "m55" = Some (PNum one) /\ leaf_param t "m66" = Some (PNum zero).
 Proof. eexists. split; [vm_compute; reflexivity | split; vm_compute; reflexivity]. Qed.
+
+(* ================================================================== the Bmad converter after the repairs (convert_bmad_v) *)
+(* with every switch off the switched transcription IS the transcription of the code as it was (by computation) *)
+Theorem convert_bmad_v_no_fixes : forall name ty ps, convert_bmad_v no_fixes name ty ps = convert_bmad name ty ps.
+Proof. intros. reflexivity. Qed.
+
+Lemma convert_v_no_fixes : forall fl name ps, convert_v no_fixes fl name ps = convert fl name ps.
+Proof. intros. reflexivity. Qed.
+
+Lemma expand_v_no_fixes : forall fuel fl c name, expand_v no_fixes fuel fl c name = expand fuel fl c name.
+Proof.
+  induction fuel as [|f IH]; intros fl c name; simpl; [reflexivity|].
+  destruct (get c name) as [[x|s|ps|items]|]; try reflexivity.
+  rewrite (collect_map_ext _ _ (expand_v no_fixes f fl c) (expand f fl c) items); [reflexivity|].
+  intros x _. apply IH.
+Qed.
+
+Theorem denote_v_no_fixes : forall fl root ss, denote_v no_fixes fl root ss = denote fl root ss.
+Proof.
+  intros. unfold denote_v, denote, denote_fuel_v, denote_fuel.
+  destruct (run ctx0 ss) as [c|]; [|reflexivity]. destruct (root_of fl c root) as [r|]; [|reflexivity].
+  apply expand_v_no_fixes.
+Qed.
+
+Theorem c13_check_v_no_fixes : forall case, c13_check_v no_fixes case = c13_check case.
+Proof. intros [[[fl root] ss] obs]. unfold c13_check_v, c13_check. now rewrite denote_v_no_fixes. Qed.
+
+(* the Elegant importer is untouched by the switches *)
+Lemma convert_v_elegant : forall fx name ps, convert_v fx Elegant name ps = convert Elegant name ps.
+Proof. intros. reflexivity. Qed.
+
+Ltac sbend_open H :=
+  unfold convert_bmad_v in H; simpl in H;
+  destruct (guard _); [|discriminate].
+
+(* F18 repaired: a bend given by its curvature g (no angle) bends by g * l *)
+Theorem bmad_sbend_g_fixed : forall fx name ps t,
+  fx_g fx = true -> has ps "angle" = false ->
+  convert_bmad_v fx name "sbend" ps = Some t ->
+  exists l g, req ps "l" = Some l /\ opt ps "g" zero = Some g /\ leaf_param t "angle" = Some (f32 (PrimFloat.mul g l)).
+Proof.
+  intros fx name ps t G A H. sbend_open H.
+  destruct (req ps "l") as [l|]; [|discriminate]. destruct (opt ps "hgap" zero); [|discriminate].
+  unfold sbend_angle in H. rewrite G, A in H. simpl in H.
+  destruct (opt ps "g" zero) as [g|]; [|discriminate].
+  destruct (if fx_e1 fx then opt ps "e1" zero else req ps "e1"); [|discriminate].
+  destruct (opt ps "e2" zero); [|discriminate]. destruct (opt ps "ref_tilt" zero); [|discriminate].
+  destruct (opt ps "fint" zero) as [fi|]; [|discriminate]. destruct (opt ps "fintx" fi); [|discriminate].
+  inversion H. exists l, g. repeat split; reflexivity.
+Qed.
+
+(* ...and a given angle keeps its precedence (what the code did before for every file it accepted) *)
+Theorem bmad_sbend_angle_wins_fixed : forall fx name ps t,
+  has ps "angle" = true ->
+  convert_bmad_v fx name "sbend" ps = Some t ->
+  exists a, opt ps "angle" zero = Some a /\ leaf_param t "angle" = Some (f32 a).
+Proof.
+  intros fx name ps t A H. sbend_open H.
+  destruct (req ps "l") as [l|]; [|discriminate]. destruct (opt ps "hgap" zero); [|discriminate].
+  unfold sbend_angle in H. rewrite A in H. rewrite andb_false_r in H.
+  destruct (opt ps "angle" zero) as [a|]; [|discriminate].
+  destruct (if fx_e1 fx then opt ps "e1" zero else req ps "e1"); [|discriminate].
+  destruct (opt ps "e2" zero); [|discriminate]. destruct (opt ps "ref_tilt" zero); [|discriminate].
+  destruct (opt ps "fint" zero) as [fi|]; [|discriminate]. destruct (opt ps "fintx" fi); [|discriminate].
+  inversion H. exists a. split; reflexivity.
+Qed.
+
+(* the witness of bmad_sbend_g_refuted now has angle 0.5 *)
+Theorem bmad_sbend_g_fixed_witness :
+  exists t, convert_v all_fixes Bmad "b" sbend_g_witness = Some t /\
+            leaf_param t "angle" = Some (PNum 0x1p-1%float) /\ leaf_param t "e1" = Some (PNum 0x1.99999ap-4%float).
+Proof. eexists. split; [vm_compute; reflexivity|split; vm_compute; reflexivity]. Qed.
+
+(* F18 repaired: a kicker with its own l / kick is a corrector of that length and angle *)
+Theorem bmad_kicker_fixed : forall fx name ps l a,
+  fx_kick fx = true ->
+  understood ["element_type"; "type"; "alias"; "l"; "kick"] ps = true -> opt ps "l" zero = Some l -> opt ps "kick" zero = Some a ->
+  convert_bmad_v fx name "hkicker" ps = Some (corrector "HorizontalCorrector" name l a) /\
+  convert_bmad_v fx name "vkicker" ps = Some (corrector "VerticalCorrector" name l a).
+Proof.
+  intros fx name ps l a K U L A. unfold convert_bmad_v. simpl. rewrite K. unfold kicker_names.
+  rewrite U, L, A. split; reflexivity.
+Qed.
+
+Theorem bmad_kicker_fixed_witness :
+  convert_v all_fixes Bmad "h" [("kick", PNum 0x1.0624dd2f1a9fcp-10%float); ("l", PNum 0x1.999999999999ap-4%float); ("element_type", PStr "hkicker")]
+    = Some (CLeaf "HorizontalCorrector" "h" [("length", PNum 0x1.99999ap-4%float); ("angle", PNum 0x1.0624dep-10%float)]) /\
+  convert_v all_fixes Bmad "v" [("kick", PNum 0x1.0624dd2f1a9fcp-10%float); ("element_type", PStr "vkicker")]
+    = Some (CLeaf "VerticalCorrector" "v" [("length", PNum zero); ("angle", PNum 0x1.0624dep-10%float)]).
+Proof. split; vm_compute; reflexivity. Qed.
+
+(* F43 repaired: e1 defaults to 0 like every other optional attribute; the witness of bmad_sbend_e1_refuted is accepted *)
+Theorem bmad_sbend_e1_default_fixed : forall fx name ps t,
+  fx_e1 fx = true -> has ps "e1" = false ->
+  convert_bmad_v fx name "sbend" ps = Some t -> leaf_param t "e1" = Some (PNum zero).
+Proof.
+  intros fx name ps t E1 A H. sbend_open H.
+  destruct (req ps "l") as [l|]; [|discriminate]. destruct (opt ps "hgap" zero); [|discriminate].
+  destruct (sbend_angle (fx_g fx) ps l); [|discriminate]. rewrite E1 in H.
+  unfold has in A. unfold opt in H at 1. destruct (get ps "e1"); [discriminate|].
+  destruct (opt ps "e2" zero); [|discriminate]. destruct (opt ps "ref_tilt" zero); [|discriminate].
+  destruct (opt ps "fint" zero) as [fi|]; [|discriminate]. destruct (opt ps "fintx" fi); [|discriminate].
+  inversion H. vm_compute. reflexivity.
+Qed.
+
+Theorem bmad_sbend_e1_fixed_witness :
+  exists t, convert_v all_fixes Bmad "b" [("angle", PNum 0x1.999999999999ap-3%float); ("l", PNum 0x1p-1%float); ("element_type", PStr "sbend")] = Some t /\
+            leaf_param t "e1" = Some (PNum zero) /\ leaf_param t "angle" = Some (PNum 0x1.99999ap-3%float).
+Proof. eexists. split; [vm_compute; reflexivity|split; vm_compute; reflexivity]. Qed.
+
+(* F42 repaired: the Segment of an ecollimator carries the element's name, like that of an rcollimator *)
+Theorem bmad_ecollimator_named_fixed : forall fx name ty ps t,
+  fx_ecol fx = true -> ty = "ecollimator" \/ ty = "rcollimator" ->
+  convert_bmad_v fx name ty ps = Some t -> exists d a, t = CSeg (Some name) [d; a].
+Proof.
+  intros fx name ty ps t E T H. unfold convert_bmad_v in H.
+  destruct T; subst ty; simpl in H; rewrite E in H; simpl in H;
+  (destruct (guard _); [|discriminate]); (destruct (opt ps "l" zero); [|discriminate]);
+  (destruct (opt ps "x_limit" infinity); [|discriminate]); (destruct (opt ps "y_limit" infinity); [|discriminate]);
+  inversion H; eauto.
+Qed.
+
+(* a repair switched on changes nothing outside its own element types *)
+Theorem convert_bmad_v_other_types : forall fx name ty ps,
+  mem ty ["hkicker"; "vkicker"; "sbend"; "ecollimator"] = false ->
+  convert_bmad_v fx name ty ps = convert_bmad name ty ps.
+Proof.
+  intros fx name ty ps M. unfold convert_bmad_v, convert_bmad. unfold mem in M. simpl in M.
+  repeat match type of M with (_ || _)%bool = false => apply orb_false_elim in M; destruct M as [? M] end.
+  repeat match goal with H : String.eqb ?a ?b = false |- _ => rewrite ?(String.eqb_sym b a) in *; revert H end.
+  intros Hh Hv Hs He.
+  destruct (String.eqb ty "marker"); [reflexivity|]. destruct (mem ty ["monitor"; "instrument"]); [reflexivity|].
+  destruct (String.eqb ty "pipe"); [reflexivity|]. destruct (String.eqb ty "drift"); [reflexivity|].
+  rewrite Hh, Hv, Hs.
+  destruct (String.eqb ty "quadrupole"); [reflexivity|]. destruct (String.eqb ty "solenoid"); [reflexivity|].
+  destruct (String.eqb ty "lcavity"); [reflexivity|].
+  unfold mem. simpl. rewrite He. rewrite !orb_false_r.
+  destruct (String.eqb ty "rcollimator") eqn:R; [|reflexivity].
+  rewrite orb_true_r. reflexivity.
+Qed.
